@@ -445,6 +445,13 @@ fn main() {
             let r = on_fresh_thread(move || layout::ptr_tables(&table));
             println!("{}", json!({"mode": "ptr", "result": r, "build": build_flags()}));
         }
+        Some("satgraph") => {
+            // saturation through traced owners: --in file with the JSON rows printed by TLC from SatGraph.tla
+            let inp = arg(&args, "--in").expect("--in");
+            let table: Vec<Value> = serde_json::from_str(&std::fs::read_to_string(inp).expect("read table")).expect("table json");
+            let r = on_fresh_thread(move || layout::sat_graph(&table));
+            println!("{}", json!({"mode": "satgraph", "result": r, "build": build_flags()}));
+        }
         Some("info") => println!("{}", json!({"build": build_flags(), "node_box_size": node_box_size::<()>()})),
         _ => {
             eprintln!("usage: ccverif random|replay|info ...");
